@@ -226,5 +226,5 @@ def range_values(r):
     lo, hi = r.lo, r.hi
     if lo <= hi:
         return range(lo, hi + 1 if r.incl else hi)
-    # descending
-    return range(lo, hi - 1 if r.incl else hi, -1)
+    # descending ranges are empty (docs/core_lib/range.md)
+    return range(0)
